@@ -78,9 +78,11 @@ inline bool build(const Spec& sp, NifFile& nif) {
 	const auto& sh = shape_sets()[(size_t) sp.shapes];
 	std::vector<NiShape*> shapes;
 	for (size_t i = 0; i < sh.size(); i++) {
-		std::vector<Vector3> v = {{0, 0, float(i)}, {1, 0, float(i)}, {0, 1, float(i)}, {1, 1, float(i) + 0.5f}};
+		// values that are not exactly representable in half precision (0.1, 1/3): formats that store halves must
+		// round them in the file only, never in the model
+		std::vector<Vector3> v = {{0.1f, 0, float(i)}, {1, 1.0f / 3.0f, float(i)}, {0, 1, float(i) + 0.3f}, {1, 1, float(i) + 0.5f}};
 		std::vector<Triangle> t = {{0, 1, 2}, {1, 3, 2}};
-		std::vector<Vector2> uv = {{0, 0}, {1, 0}, {0, 1}, {1, 1}};
+		std::vector<Vector2> uv = {{0.1f, 0}, {1, 0.3f}, {1.0f / 3.0f, 1}, {1, 1}};
 		std::vector<Vector3> nrm = {{0, 0, 1}, {0, 0, 1}, {0, 0, 1}, {0, 0, 1}};
 		std::string name = sp.dupnames ? "Shape" : std::string("Shape") + char('A' + i);
 		auto s = nif.CreateShapeFromData(name, &v, &t, &uv, &nrm);
